@@ -435,30 +435,64 @@ class Mut:
         return dict(code=9, file=key, node=it, rule="B11 path continued past a definition that has no such member")
 
     def importer_not_visible(self, files):
-        """a definition of the IMPORTING file, declared before the import statement, is not
-        visible inside the imported file"""
+        """a definition of an IMPORTING file (direct or indirect importer), declared before the import
+        statement, is not visible inside the imported file: used there as a field type, an array
+        capacity, an option value or in a constant expression"""
         rng = self.rng
-        cands = [(k, its, x) for k, its in files.items() for x in its if x[0] == "import" and x[3] in files]
-        if not cands:
+        edges = [(k, its, x) for k, its in files.items() for x in its if x[0] == "import" and x[3] in files]
+        if not edges:
             return None
-        key, items, imp = rng.choice(cands)
-        child = files[imp[3]]
-        n_importers = sum(1 for kk, its in files.items() for x in its if x[0] == "import" and x[3] == imp[3])
+        key, items, imp = rng.choice(edges)
+        # the file that uses the name: the imported file or one that it imports in turn (any depth)
+        user = imp[3]
+        chain = [user]
+        while rng.random() < 0.5:
+            nxt = [x[3] for x in files[user] if x[0] == "import" and x[3] in files and x[3] not in chain and x[3] != key]
+            if not nxt:
+                break
+            user = rng.choice(nxt)
+            chain.append(user)
+        single = all(sum(1 for kk, its in files.items() for x in its if x[0] == "import" and x[3] == c) == 1 for c in chain)
+        child = files[user]
+        use = rng.choice(["type", "type", "cap", "option", "const"])
         nm = self.z("ZUp")
-        items.insert(rng.randint(0, items.index(imp)), ["enum", None, nm, ["uint", 2], [["efield", None, "ZA", 0]]])
-        msgs = [x for x in child if x[0] == "msg"]
-        new = ["field", None, ["single", ["ref", [nm]]], self.z("zf"), None]
-        if msgs:
-            m = rng.choice(msgs)
-            new[4] = _free_number(m[4], rng)
-            if new[4] is None:
-                return None
-            m[4].insert(rng.randint(0, len(m[4])), new)
+        if use == "type":
+            decl = rng.choice([["enum", None, nm, ["uint", 2], [["efield", None, "ZA", 0]]],
+                               ["alias", None, nm, ["single", ["uint", 5]]],
+                               ["msg", None, nm, False, [["field", None, ["single", ["bool"]], "a", 1]]]])
         else:
-            new[4] = 1
-            child.append(["msg", None, self.z("ZM"), False, [new]])
-        return dict(code=9 if n_importers == 1 else None, file=imp[3], node=new,
-                    rule="B11 definition of the importing file used inside the imported file")
+            decl = ["const", None, nm, ["expr", ["int", 3]]]
+        items.insert(rng.randint(0, items.index(imp)), decl)
+        if use == "const":
+            new = ["const", None, self.z("ZK"), rng.choice([["ref", [nm]], ["expr", ["add", ["ref", [nm]], ["int", 1]]]])]
+            child.insert(rng.randint(0, len(child)), new)
+            code = 7
+        else:
+            if use == "type":
+                new = ["field", None, ["single", ["ref", [nm]]], self.z("zf"), None]
+                code = 9
+            elif use == "cap":
+                new = ["field", None, ["arr", ["bool"], ["ref", [nm]], False], self.z("zf"), None]
+                code = 7
+            else:
+                new = ["option", None, "max_bytes", ["ref", [nm]]]
+                code = 7
+            msgs = [x for x in child if x[0] == "msg"]
+            if msgs and rng.random() < 0.8:
+                m = rng.choice(msgs)
+            else:
+                m = ["msg", None, self.z("ZM"), False, []]
+                child.append(m)
+            if new[0] == "field":
+                new[4] = _free_number(m[4], rng)
+                if new[4] is None:
+                    return None
+                m[4].insert(rng.randint(0, len(m[4])), new)
+            else:
+                m[4][:] = [x for x in m[4] if not (x[0] == "option" and x[2] == "max_bytes")]
+                m[4].insert(rng.randint(0, len(m[4])), new)
+        return dict(code=code if single else None, file=user, node=new,
+                    rule=f"B11 definition of an importing file used inside an imported file ({use}, depth {len(chain)})")
 
     def inner_not_visible(self, files):
         """a definition nested in a sibling message is not visible without its path"""
